@@ -236,7 +236,7 @@ def _shape_node(n, lv):
     if k == "srt":
         return ("LambdaSort", model_shape(n[1], lv))
     if k == "def":
-        return ("FunctionDef", n[1], [p if (p.isnumeric() or p == "*") else "".join(c for c in p if "A" <= c <= "z" or c == "_") for p in n[2]],
+        return ("FunctionDef", n[1], [p if (p.isdecimal() or p == "*") else "".join(c for c in p if c in string.ascii_letters or c == "_") for p in n[2]],
                 model_shape(n[3], lv))
     if k == "call":
         return ("FunctionCall", n[1])
@@ -400,7 +400,7 @@ def validate(seq, _depth=0):
             assert len(n) == 4 and isinstance(n[1], str) and n[1] and all(c in string.ascii_letters + "_" for c in n[1])
             assert isinstance(n[2], list)
             for p in n[2]:
-                assert isinstance(p, str) and p and (p.isdigit() or all(c in string.ascii_letters + "_" for c in p))
+                assert isinstance(p, str) and p and (p.isdecimal() or all((c.isalnum() or c == "_") and c in CP for c in p))
             validate(n[3], _depth + 1)
         elif k == "call":
             assert len(n) == 2 and isinstance(n[1], str) and n[1] and all(c in string.ascii_letters + "_" for c in n[1])
@@ -464,7 +464,7 @@ def leaf_nodes(elements=None, hot=True):
 def _structures(sub_seq, sub_node):
     """Structure nodes over the given sub-strategies."""
     branch = sub_seq
-    PARAM = st.one_of(st.integers(0, 3).map(str), st.text("abnxy_", min_size=1, max_size=2))
+    PARAM = st.one_of(st.integers(0, 3).map(str), st.text("abnxy_", min_size=1, max_size=2), st.text("abn_²₁½É", min_size=1, max_size=2))
     return st.one_of(
         st.lists(branch, min_size=1, max_size=5).map(lambda bs: ["if", bs]),
         st.tuples(st.one_of(st.none(), NAME), branch).map(lambda t: ["for", t[0], t[1]]),
